@@ -62,6 +62,14 @@ def make_base(name):
     off = np.array([1.0, 2.0, 3.0])
     R = _rot((1, 2, 3, 4))
     if cls in ("ConvexPolyhedron", "Polyhedron", "ConvexSpheropolyhedron"):
+        if tag == "tiny":
+            # absolute tolerances (np.isclose(x, y) with atol 1e-8) only show on small shapes
+            v = (np.array(V6, float) @ R.T + off) * 1e-3
+            if cls == "ConvexPolyhedron":
+                return S.ConvexPolyhedron(v)
+            if cls == "ConvexSpheropolyhedron":
+                return S.ConvexSpheropolyhedron(v, 0.3e-3)
+            return S.Polyhedron(v, _hull_faces(v), faces_are_convex=True)
         if tag == "chiral":
             v = np.array(V6, float) @ R.T + off
         elif tag == "lattice":
@@ -96,9 +104,16 @@ def make_base(name):
         p = np.array((LPOLY if cls == "Polygon" else QUAD)[::-1], float)
     elif tag == "xy":
         p = np.array(LPOLY if cls == "Polygon" else QUAD, float) + np.array([2.0, -3.0])
+    elif tag in ("neg", "tiny"):
+        p = np.array(LPOLY if cls == "Polygon" else QUAD, float)
     p3 = np.hstack([p, np.zeros((len(p), 1))])
     if tag != "xy":
         p3 = p3 @ R.T + off
+    if tag == "tiny":
+        p3 = p3 * 1e-4
+    if cls == "Polygon" and tag == "neg":
+        # vertices run clockwise about the stored normal (explicit normal opposite to the vertex order)
+        return S.Polygon(p3, normal=-(R @ np.array([0.0, 0.0, 1.0])))
     if cls == "Polygon":
         return S.Polygon(p3)
     if cls == "ConvexPolygon":
@@ -120,6 +135,12 @@ BASES = [
     "Polygon/chiral",
     "Polygon/cw",
     "Polygon/xy",
+    "Polygon/neg",
+    "Polygon/tiny",
+    "ConvexPolyhedron/tiny",
+    "Polyhedron/tiny",
+    "ConvexSpheropolyhedron/tiny",
+    "ConvexPolygon/tiny",
     "ConvexPolygon/chiral",
     "ConvexPolygon/lattice",
     "ConvexPolygon/xy",
@@ -127,6 +148,9 @@ BASES = [
     "ConvexSpheropolygon/lattice",
     "ConvexSpheropolygon/xy",
 ]
+
+# C03 explores histories from these; C08 (single steps) additionally starts from every tiny base
+BASES_C03 = [b for b in BASES if b not in ("Polyhedron/tiny", "ConvexSpheropolyhedron/tiny", "ConvexPolygon/tiny")]
 
 # ---------------------------------------------------------------------------
 # canonical state
@@ -268,6 +292,8 @@ def discover_ops(base):
             pass  # e.g. RuntimeError("no circumsphere"): the setter must then raise and leave the state alone
         if name in CENTRE_LIKE:
             ops += ["set:%s=origin" % name, "set:%s=123" % name, "set:%s=rel" % name]
+            if name == "centroid":
+                ops += ["set:centroid=bad2", "set:centroid=badNone"]  # malformed values: must raise without moving the shape
         else:
             ops += ["set:%s*0.5" % name, "set:%s*2" % name]
             if name == "radius" and "Sphero" in cls.__name__:
@@ -332,12 +358,19 @@ def apply_op(obj, op):
     if kind == "set":
         if "=" in rest and rest.split("=")[0] in CENTRE_LIKE:
             name, tag = rest.split("=")
+            if tag in ("bad2", "badNone"):
+                setattr(obj, name, (1.5, -2.5) if tag == "bad2" else None)
+                return
+            # targets are relative to the size of the shape (offset / diameter stays <= ~10)
+            vv = defining_vertices(obj)
+            size = float(np.linalg.norm(vv.max(0) - vv.min(0))) or 1.0
+            unit = size / 4.0
             if tag == "origin":
                 val = np.array([0.0, 0.0, 0.0])
             elif tag == "123":
-                val = np.array([1.0, 2.0, 3.0])
+                val = np.array([1.0, 2.0, 3.0]) * unit
             else:
-                val = np.asarray(getattr(obj, name), float) + np.array([-2.0, 0.0, 5.0])
+                val = np.asarray(getattr(obj, name), float) + np.array([-2.0, 0.0, 5.0]) * unit
             # 2-D shapes must stay in their plane for the other observables to make sense:
             # translate within the plane only
             if hasattr(obj, "normal") and tag != "rel":
@@ -375,7 +408,7 @@ def apply_op(obj, op):
 
 
 def is_nonpositive_op(op):
-    return op.endswith("=neg")
+    return op.endswith("=neg") or op.endswith("=bad2") or op.endswith("=badNone")
 
 
 # ---------------------------------------------------------------------------
@@ -383,6 +416,8 @@ def is_nonpositive_op(op):
 
 
 def defining_vertices(obj):
+    if not hasattr(obj, "vertices"):
+        return np.asarray(obj.centroid, float).reshape(1, 3)
     return np.array(obj.vertices, float)
 
 
@@ -404,6 +439,24 @@ def fresh_like(obj):
     if cls is S.ConvexSpheropolygon:
         return S.ConvexSpheropolygon(v, obj.radius, normal=np.array(obj.normal, float).copy())
     raise TypeError(cls)
+
+
+def twin_of(obj):
+    """fresh object with the same defining data (also for curved shapes)"""
+    from coxeter import shapes as S
+
+    if hasattr(obj, "vertices"):
+        return fresh_like(obj)
+    c = np.array(obj.centroid, float).copy()
+    if isinstance(obj, S.Circle):
+        return S.Circle(obj.radius, c)
+    if isinstance(obj, S.Sphere):
+        return S.Sphere(obj.radius, c)
+    if isinstance(obj, S.Ellipse):
+        return S.Ellipse(obj.a, obj.b, c)
+    if isinstance(obj, S.Ellipsoid):
+        return S.Ellipsoid(obj.a, obj.b, obj.c, c)
+    raise TypeError(type(obj))
 
 
 # ---------------------------------------------------------------------------
@@ -710,10 +763,10 @@ def margin_filter(fresh, probes):
                 for i in range(1, len(f) - 1):
                     tris.append((v[f[0]], v[f[i]], v[f[i + 1]]))
             r = getattr(fresh, "radius", 0.0) if isinstance(fresh, S.ConvexSpheropolyhedron) else 0.0
-            for k, p in enumerate(pts):
-                dmin = min(_pt_tri_dist(p, *t) for t in tris)
-                if abs(dmin - r) < 1e-6 * L:
-                    keep[k] = False
+            from .refs import dist_points_to_triangles
+
+            dmin = dist_points_to_triangles(pts, tris)
+            keep &= ~(np.abs(dmin - r) < 1e-6 * L)
         else:
             r = float(getattr(fresh, "radius", 0.0) or 0.0)
             for k, p in enumerate(pts):
